@@ -19,6 +19,10 @@ ASSUMPTIONS = ['the write-site inventory covers direct attribute / subscript ass
                'the pure model cannot exhibit hidden mutation: that part rests on the inventory theorem and the snapshots']
 
 
+class ArgumentMutated(BaseException):
+    pass
+
+
 def constants():
     from kernpy.core import tokens as T, pitch_models as P, transposer as TR
     from kernpy.core.exporter import ExportOptions
@@ -46,10 +50,15 @@ def make_ops(rng, case, tmpdir):
             kw['spine_types'] = rng.sample(sorted(set(hs)) + ['**none'], rng.randint(0, len(set(hs))))
         if rng.random() < 0.4:
             kw['spine_ids'] = rng.sample(range(len(hs) + 1), rng.randint(0, len(hs)))
+        from kernpy.core import tokens as T
         if rng.random() < 0.6:
-            kw['include'] = rng.choice([rng.sample(cats, rng.randint(1, 6)), set(rng.sample(cats, 3)), TC.CORE, 'not-a-category'])
+            # also the shared category sets themselves, passed the way the documentation does (kp.BEKERN_CATEGORIES)
+            kw['include'] = rng.choice([rng.sample(cats, rng.randint(1, 6)), set(rng.sample(cats, 3)), TC.CORE, 'not-a-category',
+                                        T.BEKERN_CATEGORIES, T.NON_CORE_CATEGORIES])
         if rng.random() < 0.5:
-            kw['exclude'] = rng.choice([rng.sample(cats, rng.randint(0, 4)), TC.DECORATION, {TC.DURATION}])
+            kw['exclude'] = rng.choice([rng.sample(cats, rng.randint(0, 4)), TC.DECORATION, {TC.DURATION}, T.NON_CORE_CATEGORIES])
+        if 'spine_types' in kw and rng.random() < 0.3:
+            kw['spine_types'] = T.HEADERS if rng.random() < 0.5 else T.CORE_HEADERS
         if rng.random() < 0.7:
             kw['encoding'] = rng.choice(list(Encoding.__members__.values()))
         if rng.random() < 0.4:
@@ -57,7 +66,15 @@ def make_ops(rng, case, tmpdir):
         if rng.random() < 0.4:
             kw['to_measure'] = rng.randint(-1, M + 1)
         desc = 'dumps(' + ', '.join('%s=%s' % (k, _short(v)) for k, v in sorted(kw.items())) + ')'
-        return desc, (lambda d: kp.dumps(d, **kw))
+
+        def run(d):
+            before = copy.deepcopy(kw)
+            try:
+                return kp.dumps(d, **kw)
+            finally:
+                if kw != before:
+                    raise ArgumentMutated('dumps modified an argument object passed by the caller: %s' % sorted(k for k in kw if kw[k] != before[k]))
+        return desc, run
     pool = [
         lambda: ('get_all_tokens()', lambda d: [(t.encoding, t.category.name) for t in d.get_all_tokens()]),
         lambda: (lambda f: ('get_all_tokens(%s)' % _short(f), lambda d: [(t.encoding, t.category.name) for t in d.get_all_tokens(filter_by_categories=f)]))(rng.sample(cats, rng.randint(0, 4))),
@@ -110,7 +127,11 @@ def explore(ctx, depth):
                 raised = False
                 for desc, fn in ops:
                     hist.append(desc)
-                    r = call(lambda: fn(doc))
+                    try:
+                        r = call(lambda: fn(doc))
+                    except ArgumentMutated as e:
+                        ctx.fail({'text': case.text, 'history': list(hist), 'clause': 'arguments unchanged'}, str(e))
+                        break
                     raised |= 'err' in r
                     fresh = kp.loads(case.text)[0]
                     r2 = call(lambda: fn(fresh))
